@@ -525,4 +525,236 @@ theorem Inv.run : ∀ (ops : List MOp) (ms ms' : MState), Inv ms → (∀ o ∈ 
     · rename_i ms1 h1
       exact Inv.run os ms1 ms' (hi.step (hr o List.mem_cons_self) h1) (fun o' ho' => hr o' (List.mem_cons_of_mem _ ho')) h
 
+/-! ### what one step does to the observable positions -/
+
+/-- consumed positions: only `cStore` writes one (reset-free alphabet, ANY lock shape), and then it
+moves the group's position from `h - 1` to `h`, where `h` is what consume() loaded under the lock -/
+theorem consumed_step (sp : Shape) {ms ms' : MState} {o : MOp} (hr : o.isReset = false)
+    (h : mstep sp ms o = some ms') (k : Nat) :
+    (ms'.sh.grp k).map (·.consumed) = (ms.sh.grp k).map (·.consumed) ∨
+    (o = .cStore ∧ ∃ hh app x, ms.c = .read k hh app ∧ ms.sh.grp k = some x ∧ hh ≤ app ∧
+      ms'.sh.grp k = some { x with consumed := hh } ∧ ms'.c = .stored k hh) := by
+  cases o with
+  | rQueue n => cases hr
+  | rSeq1 g => cases hr
+  | rSeq2 => cases hr
+  | rUnlock => cases hr
+  | cStore =>
+    simp only [mstep] at h
+    split at h
+    · rename_i g hh app hc
+      split at h
+      · rename_i x hx
+        split at h
+        · rename_i hle
+          cases h
+          by_cases hkg : k = g
+          · subst hkg
+            exact Or.inr ⟨rfl, hh, app, x, hc, hx, hle, by simp [Sh.setGrp], rfl⟩
+          · left; simp [Sh.setGrp, hkg]
+        · cases h; left; rfl
+      · cases h
+    · cases h
+  | aStore =>
+    left
+    simp only [mstep] at h
+    split at h
+    · rename_i g n ts hs ha
+      split at h
+      · rename_i x hx
+        split at h
+        · cases h
+          by_cases hkg : k = g
+          · subst hkg; simp [Sh.setGrp, hx]
+          · simp [Sh.setGrp, hkg]
+        · cases h; rfl
+      · cases h
+    · cases h
+  | cLoad g => left; simp only [mstep] at h; split at h <;> cases h; rfl
+  | cWake =>
+    left; simp only [mstep] at h
+    split at h
+    · split at h
+      · split at h
+        · cases h; rfl
+        · split at h <;> cases h; rfl
+      · cases h
+    · cases h
+  | cLock =>
+    left; simp only [mstep] at h
+    split at h
+    · split at h
+      · split at h <;> cases h; rfl
+      · cases h
+    · cases h
+  | cPut =>
+    left; simp only [mstep] at h
+    split at h
+    · split at h <;> cases h; rfl
+    · cases h
+  | aLock g n =>
+    left; simp only [mstep] at h
+    split at h
+    · split at h <;> cases h; rfl
+    · cases h
+  | aLoadC =>
+    left; simp only [mstep] at h
+    split at h
+    · split at h <;> cases h; rfl
+    · cases h
+  | aPut1 =>
+    left; simp only [mstep] at h
+    split at h
+    · split at h <;> cases h; rfl
+    · cases h
+  | aPut2 =>
+    left; simp only [mstep] at h
+    split at h
+    · split at h <;> cases h; rfl
+    · cases h
+  | sLock =>
+    left; simp only [mstep] at h
+    split at h
+    · split at h <;> cases h <;> rfl
+    · cases h
+  | sVisit g =>
+    left; simp only [mstep] at h
+    split at h
+    · split at h
+      · split at h <;> cases h; rfl
+      · cases h
+    · cases h
+  | sSet =>
+    left; simp only [mstep] at h
+    split at h
+    · split at h
+      · cases h
+        show (Sh.grp (if _ then _ else _) k).map _ = _
+        split
+        · unfold Sh.setAck; split <;> rfl
+        · rfl
+      · cases h
+    · cases h
+  | put => left; simp only [mstep] at h; cases h; rfl
+
+/-- the queue ack: only `sSet` moves it, and only upwards (reset-free alphabet, any lock shape) -/
+theorem qack_step (sp : Shape) {ms ms' : MState} {o : MOp} (hr : o.isReset = false)
+    (h : mstep sp ms o = some ms') :
+    ms'.sh.qack = ms.sh.qack ∨ (o = .sSet ∧ ms.sh.qack < ms'.sh.qack ∧ ms'.y = .idle) := by
+  cases o with
+  | rQueue n => cases hr
+  | rSeq1 g => cases hr
+  | rSeq2 => cases hr
+  | rUnlock => cases hr
+  | sSet =>
+    simp only [mstep] at h
+    split at h
+    · rename_i acc vis hy
+      split at h
+      · cases h
+        by_cases hacc : acc ≥ 0
+        · by_cases hmove : acc > ms.sh.qack ∧ acc ≤ ms.sh.appended
+          · right
+            refine ⟨rfl, ?_, rfl⟩
+            show ms.sh.qack < (Sh.qack (if _ then _ else _))
+            simp [hacc, Sh.setAck, hmove]
+          · left
+            show (Sh.qack (if _ then _ else _)) = _
+            simp [hacc, Sh.setAck, hmove]
+        · left
+          show (Sh.qack (if _ then _ else _)) = _
+          simp [hacc]
+      · cases h
+    · cases h
+  | cStore =>
+    left; simp only [mstep] at h
+    split at h
+    · split at h
+      · split at h <;> cases h <;> rfl
+      · cases h
+    · cases h
+  | aStore =>
+    left; simp only [mstep] at h
+    split at h
+    · split at h
+      · split at h <;> cases h <;> rfl
+      · cases h
+    · cases h
+  | cLoad g => left; simp only [mstep] at h; split at h <;> cases h; rfl
+  | cWake =>
+    left; simp only [mstep] at h
+    split at h
+    · split at h
+      · split at h
+        · cases h; rfl
+        · split at h <;> cases h; rfl
+      · cases h
+    · cases h
+  | cLock =>
+    left; simp only [mstep] at h
+    split at h
+    · split at h
+      · split at h <;> cases h; rfl
+      · cases h
+    · cases h
+  | cPut =>
+    left; simp only [mstep] at h
+    split at h
+    · split at h <;> cases h; rfl
+    · cases h
+  | aLock g n =>
+    left; simp only [mstep] at h
+    split at h
+    · split at h <;> cases h; rfl
+    · cases h
+  | aLoadC =>
+    left; simp only [mstep] at h
+    split at h
+    · split at h <;> cases h; rfl
+    · cases h
+  | aPut1 =>
+    left; simp only [mstep] at h
+    split at h
+    · split at h <;> cases h; rfl
+    · cases h
+  | aPut2 =>
+    left; simp only [mstep] at h
+    split at h
+    · split at h <;> cases h; rfl
+    · cases h
+  | sLock =>
+    left; simp only [mstep] at h
+    split at h
+    · split at h <;> cases h <;> rfl
+    · cases h
+  | sVisit g =>
+    left; simp only [mstep] at h
+    split at h
+    · split at h
+      · split at h <;> cases h; rfl
+      · cases h
+    · cases h
+  | put => left; simp only [mstep] at h; cases h; rfl
+
+/-- when every thread is idle the meta page of every group holds its in-memory positions -/
+theorem Inv.quiet_write_through {ms : MState} (hi : Inv ms) (hq : ms.quiet = true) (g : Nat) (x : Group)
+    (hx : ms.sh.grp g = some x) : ms.sh.pg g = some { consumed := x.consumed, ack := x.ack } := by
+  simp only [MState.quiet, Bool.and_eq_true, beq_iff_eq] at hq
+  obtain ⟨m, hm, h1, h2⟩ := hi.wt g x hx
+  rw [hq.1.1.1] at h1
+  rw [hq.1.1.2] at h2
+  rw [hm]
+  have e1 := h1 rfl
+  have e2 := h2 rfl
+  cases m
+  simp_all
+
+/-- the sequential invariants give the micro invariant of the embedded state -/
+theorem Inv.ofState (s : State) (hlo : -1 ≤ s.q.ack) (hle : s.q.ack ≤ s.q.appended)
+    (hord : ∀ g x, Map.lookup s.live g = some x → s.q.ack ≤ x.ack ∧ x.ack ≤ x.consumed ∧ x.consumed ≤ s.q.appended)
+    (hwt : ∀ g x, Map.lookup s.live g = some x → Map.lookup s.metas g = some { consumed := x.consumed, ack := x.ack }) :
+    Inv (MState.ofState s) :=
+  ⟨hlo, hle, hord, fun g x hx => Map.mem_keys_of_lookup hx, (by intro k hk; cases hk), trivial, trivial, trivial,
+    fun g x hx => ⟨_, hwt g x hx, fun _ => rfl, fun _ => rfl⟩, rfl⟩
+
 end LinVerif.FanOut.Micro
